@@ -32,6 +32,14 @@ def gen(ctx, n):
             g["indict"]["dynamics"] = [g["indict"]["dynamics"][p] for p in perm]
         if rng.random() < 0.15:
             g["indict"]["options"] = {"output_timestep_symbol": rng.choice(["dt", "h_step"]), "differential_order_symbol": rng.choice(["__d", "_D"])}
+        r = rng.random()
+        first = [d["expression"].split("=")[0].strip()[:-1] for d in g["indict"]["dynamics"] if d["expression"].split("=")[0].count("'") == 1]
+        if r < 0.15:
+            g["flags"] = {"preserve_expressions": True}
+        elif r < 0.3 and first:
+            g["flags"] = {"preserve_expressions": rng.sample(first, rng.randint(1, len(first)))}
+        elif r < 0.4:
+            g["flags"] = {"simplify_expression": rng.choice(["sympy.logcombine(sympy.powsimp(sympy.expand(expr)))", "sympy.factor(expr)"])}
         g["pt_seed"] = rng.randrange(10 ** 9)
         g["check_flow"] = True
         g["check_numeric_rhs"] = False
@@ -76,7 +84,7 @@ def run(ctx, driver):
             ctx.count("flow_eval_errors")
         if fc["problems"]:
             laws = sorted({p["law"] for p in fc["problems"]})
-            ctx.fail("update-is-not-the-flow", case["indict"], {"violated": laws, "first": fc["problems"][0], "point": fc.get("point"), "h1": fc.get("h1"), "h2": fc.get("h2"),
+            ctx.fail("update-is-not-the-flow", {"indict": case["indict"], "flags": case.get("flags", {})} if case.get("flags") else case["indict"], {"violated": laws, "first": fc["problems"][0], "point": fc.get("point"), "h1": fc.get("h1"), "h2": fc.get("h2"),
                                                                "propagators": ana["propagators"], "update_expressions": ana["update_expressions"],
                                                                "signature": {"site": "analytical solver", "shape": case.get("shape")}})
     ctx.sample({"indict": cases[-1]["indict"], "analytical": [s for s in (flow[-1].get("solvers") or []) if s["solver"] == "analytical"][:1] if isinstance(flow[-1], dict) else None})
@@ -127,6 +135,7 @@ def run(ctx, driver):
 def replay(rp):
     from harness.core import cases
     tb.import_toolbox()
-    r = cases.case_full({"indict": rp["failing_input"], "check_flow": True, "check_numeric_rhs": False, "pt_seed": 1})
+    fi = rp["failing_input"]
+    r = cases.case_full({"indict": fi.get("indict", fi), "flags": fi.get("flags", {}) if "indict" in fi else {}, "check_flow": True, "check_numeric_rhs": False, "pt_seed": 1})
     print(json.dumps({"error": r.get("error"), "flow_check": r.get("flow_check")}, indent=1)[:3000])
     return 1 if (r.get("flow_check") or {}).get("problems") else 0
